@@ -27,7 +27,10 @@ RULE = ('(lex) token streams of seeded strings over token-rich and arbitrary Uni
 TRUSTED = ['the regular-expression engine `re` (each token rule has a hand-written matcher; the generated pattern texts are pinned by Props/C05)',
            'float(text) is correctly rounded (a decimal literal is compared with the correctly rounded double of the rational it spells)']
 ASSUMPTIONS = ['white space is never inserted between a function name and its parenthesis, nor inside a token',
-               'n% is computed as n*0.01 in floating point: compared within 1 ulp of n/100, for n below 2^53', 'lone surrogate code points (not representable as Lean Char) are excluded from the lexer comparison']
+               'n% is computed as n*0.01 in floating point: compared within 1 ulp of n/100, for n below 2^53',
+               'a literal power of at least 2^1024 is #NUM! (bounded evaluation time, C01): precisely, a^b with a > 1 and '
+               'floor(log2 a)*b >= 1024 must answer #NUM! without a result; every other a^b (all those below 2^1024, and some '
+               'up to 2^2046 such as 3^647) must be the exact integer', 'lone surrogate code points (not representable as Lean Char) are excluded from the lexer comparison']
 EXHAUSTIVE = {'quick': True, 'thorough': True}
 
 SEPS = [',', ';', '\\']
@@ -116,6 +119,11 @@ def cases(rng, ctx):
     for form, a, b in [('int', '0', ''), ('int', '007', ''), ('dec', '0', '0'), ('dec', '1', '50'), ('dot', '', '0'), ('pct', '0', ''),
                        ('pct', '100', ''), ('pow', '0', '0'), ('pow', '2', '10'), ('dec', '123456789012345678', '9'), ('int', '9' * 30, '')]:
         out.append({'kind': 'num', 'form': form, 'a': a, 'b': b})
+    # literal powers around the guard of the production (floor(log2 a) * b >= 1024 -> #NUM!), and far above it
+    for a, b in [('2', '1023'), ('2', '1024'), ('3', '646'), ('3', '647'), ('3', '1023'), ('3', '1024'), ('4', '511'), ('4', '512'),
+                 ('10', '308'), ('10', '341'), ('10', '342'), ('99', '170'), ('99', '171'), ('1', '99999999'), ('0', '99999999'),
+                 ('01', '1024'), ('9', '99999999'), ('2', '9' * 40), ('9' * 40, '8'), ('9' * 40, '7')]:
+        out.append({'kind': 'num', 'form': 'pow', 'a': a, 'b': b})
     # (lit) strings
     alpha = 'abc XYZ019,;\\()+-*/&=<>.:{}#!%$\t\né漢字ß \x01'
     for _ in range(500 * sc):
@@ -267,8 +275,13 @@ def oracle(c, impl_ans):
             q = Fraction(int(b), 10 ** len(b))
         elif form == 'pct':
             q = Fraction(int(a), 100)
+        elif pow_guard(int(a), int(b)):
+            # at least 2^1024: the power is not computed (bounded evaluation time), the answer is #NUM!
+            if rec != {'result': None, 'error': '#NUM!'}:
+                return 'literal power %r (at least 2^1024) evaluates to %s, expected #NUM!' % (f, short(rec))
+            return None
         else:
-            q = Fraction(int(a) ** int(b))
+            q = Fraction(int(a) ** int(b))      # below 2^2047 here
         r = rec['result']
         if rec['error'] is not None or isinstance(r, bool) or not isinstance(r, (int, float)):
             return 'literal %r evaluates to %r' % (f, rec)
@@ -314,6 +327,21 @@ def oracle(c, impl_ans):
             return 'cell reference case matters: %r -> %r, %r -> %r, %r -> %r' % (f1, r1, f2, r2, f3, r3)
         return None
     return None
+
+
+def pow_guard(base, exponent):
+    """the reading of ASSUMPTIONS: base > 1 and floor(log2 base) * exponent >= 1024 (then base^exponent >= 2^1024)"""
+    if base <= 1:
+        return False
+    k = 0
+    while base >> (k + 1):       # k = floor(log2 base), computed without bit_length (the implementation uses that)
+        k += 1
+    return k * exponent >= 1024
+
+
+def short(x, n=200):
+    s = repr(x)
+    return s if len(s) <= n else s[:n] + '...(%d characters)' % len(s)
 
 
 def c06_same(r1, r2):
